@@ -17,4 +17,18 @@ pub mod inner { use ts_rs::TS; #[derive(TS)] pub struct Wrapper<T> { pub t: T } 
 #[derive(TS)] #[ts(concrete(T = i32))] pub struct Concrete<T> { a: T }
 #[derive(TS)] #[ts(bound = "T: TS")] pub struct ExplicitBound<T> { a: T }
 #[derive(TS)] pub struct Nested<T> { a: Vec<Option<(T, Box<T>)>> }
+// `_` in `#[ts(as = "..")]` stands for the type of the field, wherever it is written (replace_underscore walks syn::Type: outside R17)
+pub trait Tr { type Out; }
+impl Tr for String { type Out = i32; }
+pub trait Via<T> { type Out; }
+pub struct Sel;
+impl Via<i32> for Sel { type Out = String; }
+impl Via<String> for Sel { type Out = Vec<i32>; }
+pub mod m { pub struct W<T>(pub T); impl<T> super::Via<T> for W<T> { type Out = T; } pub mod n { pub type Alias<T> = Option<T>; } }
+#[derive(TS)] pub struct InferOption { #[ts(optional, as = "Option<_>")] a: bool, #[ts(as = "Option<_>")] b: String }
+#[derive(TS)] pub struct InferQualifiedSelf { #[ts(as = "<_ as Tr>::Out")] a: String }
+#[derive(TS)] pub struct InferTraitArg { #[ts(as = "<Sel as Via<_>>::Out")] a: i32, #[ts(as = "<Sel as Via<_>>::Out")] b: String, #[ts(as = "Option<<Sel as Via<_>>::Out>")] c: i32 }
+#[derive(TS)] pub struct InferNested { #[ts(as = "Vec<Option<(_, std::boxed::Box<_>)>>")] a: i32, #[ts(as = "[_; 2]")] b: i32, #[ts(as = "m::n::Alias<_>")] c: String }
+#[derive(TS)] pub struct InferInPathPrefix { #[ts(as = "<m::W<_> as Via<_>>::Out")] a: i32 }
+#[derive(TS)] pub enum InferVariant { A(#[ts(as = "Option<_>")] i32), B { #[ts(as = "<Sel as Via<_>>::Out")] x: String } }
 pub mod shapes;
